@@ -136,6 +136,17 @@ def run_script(hist, sends):
     return None
 
 
+CONC = int(os.environ.get("C11_CONC", "1"))
+
+
+def _conc(x, lo, hi):
+    """a concrete copy of a small symbolic int (the engine forks on the comparisons)"""
+    for v in range(lo, hi + 1):
+        if x == v:
+            return v
+    return lo
+
+
 def _valid(hist, sends):
     return (len(hist) == HLEN and len(sends) == ELEN
             and all(0 <= h[0] <= 2 and 0 <= h[1] <= MAXID for h in hist)
@@ -190,6 +201,10 @@ def _routing(h0: int, a0: int, h1: int, a1: int, h2: int, a2: int, s0: int, r0: 
     pre: _pre(h0, a0, h1, a1, h2, a2, s0, r0, d0, s1, r1, d1, s2, r2, d2, w0, w1, w2)
     post: _
     """
+    if CONC:
+        h0, h1, h2 = _conc(h0, 0, 2), _conc(h1, 0, 2), _conc(h2, 0, 2)
+        w0, w1, w2 = _conc(w0, 0, 2), _conc(w1, 0, 2), _conc(w2, 0, 2)
+        s0, s1, s2 = _conc(s0, 0, 2), _conc(s1, 0, 2), _conc(s2, 0, 2)
     hist, sends = _mk(h0, a0, h1, a1, h2, a2, s0, r0, d0, s1, r1, d1, s2, r2, d2, w0, w1, w2)
     return run_script(hist, sends) is None
 
